@@ -114,7 +114,7 @@ func Run(cfg core.Config, scope core.Scope) *core.Result {
 	if scope.Files == nil {
 		for k := range Exempt {
 			if !used[k] && containsPkg(pkgs, strings.SplitN(k, ".", 2)[0]) {
-				res.Brokenf("stale exemption OKFLOW.use %s", k)
+				res.Stale("stale exemption OKFLOW.use %s", k)
 			}
 		}
 	}
